@@ -24,6 +24,9 @@ pub const FAMILIES: &[(&str, u64)] = &[
     ("conf", 3),
     ("conf-hints", 3),
     ("conf-soft", 2),
+    ("lazy-soft", 2),
+    ("medium-soft", 2),
+    ("lazy-hints", 1),
     ("deep", 2),
     ("deep-hints", 1),
     ("hostile", 2),
